@@ -18,6 +18,8 @@ from rebench.persistence import DataStore
 from rebench.configurator import Configurator
 from rebench.ui import TestDummyUI
 
+_pre_call = None   # optional observer(args, env, cwd=...) of every benchmark process start
+
 SCHEDULERS = {"batch": BatchScheduler, "round-robin": RoundRobinScheduler, "random": RandomScheduler}
 
 
@@ -124,6 +126,8 @@ def run_session(raw, script, data_file, argv=(), scheduler="batch", build_script
             if build_script is None:
                 return 0, "", ""
             return build_script(text, cwd)
+        if _pre_call is not None:
+            _pre_call(args, env, cwd=cwd, timeout=timeout)
         parts = args.split()
         bench, inv = parts[-2], parts[-1]
         k = nth.get(bench, 0)
